@@ -482,6 +482,19 @@ def materialise(sc, fence_only=False, fresh_spies=True):
     for s in sc['sensors']:
         data = W.aiding_samples(s['cls'], reference, wd, s['stamps'], s['sd'], s['lever'],
                                 s['noise_seed'], scale=scale)
+        form = s.get('table_form')
+        if form == 'reversed':
+            data = data[list(data.columns[::-1])]
+        elif form == 'rotated':
+            data = data[list(data.columns[1:]) + list(data.columns[:1])]
+        elif form == 'wide':
+            data = data.copy()
+            data.insert(0, 'quality', 1.0)
+            data['n_sat'] = 9.0
+        if s.get('vertical_scramble') and s['cls'] == 'NedVelocity':
+            # metamorphic twin: the measured vertical velocity replaced by other numbers
+            data = data.copy()
+            data['VD'] = data['VD'].to_numpy() * -3.0 + 11.0
         cls = spy_class(s['cls'])
         if s['cls'] == 'BodyVelocity':
             obj = cls(data, s['sd'] * scale)
